@@ -184,6 +184,8 @@ func vFreeMapOrder(on bool)    {}
 func vAllocLimit(n int)        { vAllocCeiling = uint64(n) }
 func vCut(why string)          { panic(vStop{"cut", why}) }
 func vEngine() bool            { return false }
+func vFork(c bool) bool        { return c }
+func vConcretize(x, max int) int { return x }
 func vBytesEq(a, b []byte) bool { return string(a) == string(b) }
 func vStrEq(a, b string) bool   { return a == b }
 func vIte(c bool, a, b uint64) uint64 {
